@@ -4,10 +4,11 @@
    Part 1-2 (addresses): no hypothesis about any oracle.
    Part 3 (keys): the only hypotheses are the digest sizes of the hashes (a Python bytes object of that length) --
    without them the models' b[31] on a too short digest is an IndexError, which is what the real hashes exclude.
-   The Khovratovich-Law child key is the one place where the full statement is FALSE of the faithful model: the
-   32-byte rendering of 8*zL + kL overflows for a parent with kL >= 2^256 - 2^227 ([kh_child_key_refuted]; /repo
-   behaves the same: OverflowError).  What holds is the statement under the bound that every key derived from a seed
-   satisfies for 2^28 levels ([kh_derive_fof]). *)
+   The Khovratovich-Law child key: the 32-byte rendering of 8*zL + kL does not fit for a parent with kL >= 2^256 - 2^227;
+   since fix 71d2424 of /repo (finding C14-KHOLAW-OVERFLOW) that child is discarded with Bip32KeyError, and so it is in
+   Model/Bip32Kholaw.v: the no-escape statements of parts 7-8 are unconditional.  Parts 4-5 keep what the bound gave
+   before the repair, now as a fact of its own: a key derived from a seed has kL < 2^255 and every level adds less than
+   2^227, so the new refusal is out of reach of seed-derived keys for 2^28 levels. *)
 From Coq Require Import NArith ZArith Arith List Lia Bool.
 From BU Require Import Base.Exn Base.Radix Base.Bytes Gen.Consts Gen.ConstsCardmon.
 From BU Require Import Model.EdLib Model.CborEnc Model.Bip32Kholaw Model.ByronLegacyDeriv Model.AddrAdaShelley Model.AddrAdaByron.
@@ -360,6 +361,7 @@ Section Children.
         set (prvl := zl8 (firstn kh_half_len z) + KL k) in *.
         destruct (negb (prvl mod ed_curve_order =? 0)); [|reflexivity].
         assert (Hp : prvl < 256 ^ N.of_nat 32) by (rewrite pow256_32; unfold prvl; lia).
+        destruct (N.ltb_spec prvl (256 ^ N.of_nat 32)) as [_|Hge]; [|lia].
         rewrite (le_pad_fixed 32 prvl Hp). cbn [bind Ok Err].
         set (r := (le_to_int (skipn kh_half_len z) + le_to_int (skipn kh_half_len k)) mod 2 ^ 256).
         assert (Hr : r < 256 ^ N.of_nat 32) by (rewrite pow256_32; unfold r; apply N.mod_upper_bound; discriminate).
@@ -510,41 +512,6 @@ Section SeedAndPath.
       Qed.
     End Ic.
 
-    (* DerivePath(str) on a private object whose kL is below 2^255: 2^28 levels of room *)
-    Lemma kh_derive_path_str_family n k s : n_priv n = Some k -> KL k < 2 ^ 255 ->
-      (forall p, Bip32Path.parse s = Ok p -> N.of_nat (length (Bip32Path.p_elems p)) <= 2 ^ 28) ->
-      in_family (Bip32Path.derive_path_str node n_depth
-                   (C14b.kh_ckd hmac_sha512 G gadd gmul gbase g_is_zero penc pdec kh_derivator) n s) = true.
-    Proof.
-      intros P B Hp. unfold Bip32Path.derive_path_str.
-      apply fam_bind; [apply NoEscapePaths.bip32_parse_family|]. intros p Pp.
-      unfold Bip32Path.derive_path. destruct (_ && _); [reflexivity|].
-      apply (kh_derive_elems_family hmac_sha512 G gadd gmul gbase g_is_zero penc pdec hmac512_ok _ n k P).
-      specialize (Hp p Pp). change (2 ^ 256) with (2 ^ 255 + 2 ^ 28 * 2 ^ 227). lia.
-    Qed.
-
-    (* Bip32KholawEd25519.FromSeedAndPath(seed, str) *)
-    Lemma kh_from_seed_and_path_str_fof fuel seed s :
-      (forall p, Bip32Path.parse s = Ok p -> N.of_nat (length (Bip32Path.p_elems p)) <= 2 ^ 28) ->
-      in_family_or_fuel (from_seed_and_path_str kh_derivator (kh_from_seed fuel) seed s) = true.
-    Proof.
-      intros Hp. unfold C14b.kh_from_seed_and_path_str.
-      apply fof_bind; [apply (kh_from_seed_fof hmac_sha512 hmac_sha256 G gmul gbase g_is_zero penc hmac512_len)|]. intros n Hn.
-      destruct (kh_from_seed_bound _ _ _ Hn) as (k & P & B).
-      apply fof_of_fam, (kh_derive_path_str_family n k s P B Hp).
-    Qed.
-
-    (* CardanoIcarusBip32.FromSeedAndPath(seed, str) *)
-    Lemma ic_from_seed_and_path_str_family seed s :
-      (forall p s r n, length (pbkdf2_sha512 p s r n) = N.to_nat n) -> (forall p s r n, bytes_ok (pbkdf2_sha512 p s r n)) ->
-      (forall p, Bip32Path.parse s = Ok p -> N.of_nat (length (Bip32Path.p_elems p)) <= 2 ^ 28) ->
-      in_family (from_seed_and_path_str kh_derivator ic_from_seed seed s) = true.
-    Proof.
-      intros Hl Ho Hp. unfold C14b.kh_from_seed_and_path_str.
-      apply fam_bind; [apply (ic_from_seed_family pbkdf2_sha512 G gmul gbase g_is_zero penc Hl)|]. intros n Hn.
-      destruct (ic_from_seed_bound Hl Ho _ _ Hn) as (k & P & B).
-      apply (kh_derive_path_str_family n k s P B Hp).
-    Qed.
   End KhIc.
 
   (* CardanoByronLegacyBip32.FromSeedAndPath(seed, str): paths of any length *)
@@ -563,14 +530,15 @@ Section SeedAndPath.
   Qed.
 End SeedAndPath.
 
-(* ================================================================== 6. the refutation of the unguarded statement *)
-(* Bip32KholawEd25519.FromPrivateKey(ff * 64).ChildKey(0) with an HMAC that returns ff * 64: 8*zL + kL >= 2^256 *)
+(* ================================================================== 6. the former witness of the unguarded statement *)
+(* Bip32KholawEd25519.FromPrivateKey(ff * 64).ChildKey(0) with an HMAC that returns ff * 64: 8*zL + kL >= 2^256.
+   Before fix 71d2424 this was the OverflowError that refuted the no-escape statement; now the child is discarded. *)
 Definition refute_hmac (_ _ : list N) : list N := repeat 255 64.
 Definition refute_node : node := mk_node (Some (repeat 255 64)) (repeat 0 32) (repeat 0 32) 0.
-Lemma kh_child_key_overflows :
+Lemma kh_child_key_out_of_range :
   Bip32Kholaw.child_key refute_hmac unit (fun _ _ => tt) (fun _ _ => tt) tt (fun _ => false) (fun _ => repeat 0 32)
     (fun _ => Some tt) (Bip32Kholaw.kh_derivator unit (fun _ _ => tt) tt (fun _ => false) (fun _ => repeat 0 32))
-    refute_node 0%Z = Err OverflowError.
+    refute_node 0%Z = Err (LibError Bip32KeyError).
 Proof. vm_compute. reflexivity. Qed.
 (* ... and that parent is an object the constructor accepts *)
 Lemma refute_node_constructed :
@@ -603,22 +571,10 @@ Section ChildKeyZ.
     - unfold Bip32Kholaw.child_key. rewrite I. reflexivity.
   Qed.
 
-  (* Bip32KholawEd25519.ChildKey(int) / CardanoIcarusBip32.ChildKey(int) on a private object with kL + 2^227 <= 2^256 *)
-  Lemma kh_child_key_partial_family n k (i : Z) : (forall k m, bytes_ok (hmac_sha512 k m)) ->
-    n_priv n = Some k -> KL k + 2 ^ 227 <= 2 ^ 256 -> in_family (child_key kh_derivator n i) = true.
-  Proof.
-    intros Hok P B. destruct (index_ok i) eqn:I.
-    - rewrite (index_ok_of_N i I).
-      assert (B1 : KL k + N.of_nat 1 * 2 ^ 227 <= 2 ^ 256) by (change (N.of_nat 1) with 1; lia).
-      pose proof (kh_child_key_spec hmac_sha512 G gadd gmul gbase g_is_zero penc pdec Hok n k (Z.to_N i) 0 P B1) as S.
-      unfold C14b.kh_ckd in S.
-      destruct (child_key kh_derivator n (Z.of_N (Z.to_N i))) as [n'|e]; [reflexivity|exact S].
-    - unfold Bip32Kholaw.child_key. rewrite I. reflexivity.
-  Qed.
 End ChildKeyZ.
 
-(* ================================================================== 8. the Khovratovich-Law derivator as the property demands it
-   (Model/C14b.v: kh_derivator_conformant): no bound on the parent key, no hypothesis on the HMAC *)
+(* ================================================================== 8. the Khovratovich-Law derivator (as repaired by fix 71d2424):
+   no bound on the parent key, no hypothesis on the HMAC *)
 Section Conformant.
   Variable hmac_sha512 : list N -> list N -> list N.
   Variable hmac_sha256 : list N -> list N -> list N.
@@ -633,13 +589,12 @@ Section Conformant.
   Notation node_from_priv := (Bip32Kholaw.node_from_priv G gmul gbase g_is_zero penc).
   Notation ckd_priv := (Bip32Kholaw.ckd_priv hmac_sha512 G gmul gbase g_is_zero penc).
   Notation child_key := (Bip32Kholaw.child_key hmac_sha512 G gadd gmul gbase g_is_zero penc pdec).
-  Notation conf := (C14b.kh_derivator_conformant G gmul gbase g_is_zero penc).
-  Notation kh_derivator := (Bip32Kholaw.kh_derivator G gmul gbase g_is_zero penc).
+  Notation conf := (Bip32Kholaw.kh_derivator G gmul gbase g_is_zero penc).
   Notation kh_ckd := (C14b.kh_ckd hmac_sha512 G gadd gmul gbase g_is_zero penc pdec).
 
-  Lemma kh_new_left_conformant_family zl kl : in_family (C14b.kh_new_left_conformant zl kl) = true.
+  Lemma kh_new_left_family zl kl : in_family (kh_new_left zl kl) = true.
   Proof.
-    unfold C14b.kh_new_left_conformant. cbv zeta.
+    unfold kh_new_left. cbv zeta.
     destruct (negb _); [|reflexivity].
     destruct (N.ltb_spec (zl8 zl + le_to_int kl) (256 ^ N.of_nat (kh_priv_len / 2))) as [H|H]; [|reflexivity].
     rewrite (le_pad_fixed _ _ H). reflexivity.
@@ -651,22 +606,12 @@ Section Conformant.
     rewrite le_pad_fixed; [reflexivity|]. rewrite pow256_32. apply N.mod_upper_bound. discriminate.
   Qed.
 
-  (* where the code's derivator does not overflow the two agree *)
-  Lemma kh_new_left_conformant_agrees zl kl : zl8 zl + le_to_int kl < 2 ^ 256 ->
-    C14b.kh_new_left_conformant zl kl = kh_new_left zl kl.
-  Proof.
-    intros H. unfold C14b.kh_new_left_conformant, kh_new_left. cbv zeta.
-    destruct (negb _); [|reflexivity].
-    destruct Lemmas.Bip32Kholaw.kh_consts as (_ & _ & _ & _ & _ & _ & _ & _ & _ & ->). rewrite pow256_32.
-    apply N.ltb_lt in H. rewrite H. reflexivity.
-  Qed.
-
   Lemma conf_ckd_priv_family n k i : i < 2 ^ 32 -> in_family (ckd_priv conf n k i) = true.
   Proof.
-    intros Hi. unfold Bip32Kholaw.ckd_priv. cbn [d_ser_index d_new_left d_new_right C14b.kh_derivator_conformant].
+    intros Hi. unfold Bip32Kholaw.ckd_priv. cbn [d_ser_index d_new_left d_new_right Bip32Kholaw.kh_derivator].
     rewrite (Lemmas.Bip32Kholaw.ser_index_le i Hi). cbn [bind Ok Err].
     destruct (is_hardened i); cbv zeta;
-      (apply fam_bind; [apply kh_new_left_conformant_family|]; intros kl _;
+      (apply fam_bind; [apply kh_new_left_family|]; intros kl _;
        apply fam_bind; [apply kh_new_right_family|]; intros kr _; apply node_from_priv_family).
   Qed.
 
